@@ -1068,7 +1068,11 @@ class ReadPhaseSpace(Contract):
             return VoidV()
 
         def read_into(ex, n, st, objn, argn, this_override=None):
-            # DataSet::read(buf, type, memspace, filespace): writes as many elements as the memory space holds into buf
+            # DataSet::read(buf, type, memspace, filespace): writes as many elements as the memory space holds into buf.
+            # Any other read (H5::Attribute::read(type, buffer), ...) is a library call like all the others (h5_any below)
+            oty = (objn.get('type', {}).get('qualType', '') if isinstance(objn, dict) else '')
+            if 'DataSet' not in oty or len([a for a in argn if a.get('kind') != 'CXXDefaultArgExpr']) < 3:
+                return h5_any(ex, n, st, objn, argn, this_override)
             p = ex.ev(argn[0], st)
             ms = st.scal.get('ghost.h5.memspace_points')
             if not isinstance(p, PtrV) or p.region is None or ms is None:
